@@ -24,4 +24,18 @@ def fmt6Bits (bits : UInt64) : String :=
     s ++ toString (n / 1000000) ++ "." ++ pad 6 (toString (n % 1000000))
 
 def fmt6 (f : Float) : String := fmt6Bits f.toBits
+
+/-- `%.0f`: the nearest integer, ties to even, of the exact binary value -/
+def fmt0Bits (bits : UInt64) : String :=
+  let b := bits.toNat
+  let sign : Nat := b / 2^63
+  let e : Nat := b / 2^52 % 2048
+  let m : Nat := b % 2^52
+  let s := if sign == 1 then "-" else ""
+  if e == 2047 then (if m == 0 then (if sign == 1 then "-Inf" else "+Inf") else "NaN")
+  else
+    let mant : Nat := if e == 0 then m else m + 2^52
+    let ex : Int := (if e == 0 then 1 else (e : Int)) - 1075
+    let n := if ex ≥ 0 then mant * 2^ex.toNat else roundDiv mant (2^(-ex).toNat)
+    s ++ toString n
 end Crng.FloatFmt
